@@ -69,6 +69,11 @@ CHECKS = {
         note="'Every process' is sampled by a handful of processes; GC timing is perturbed, not enumerated.",
         technique="metamorphic property-based testing (rapid): same history twice => same trace, under GC perturbation and across OS processes",
         ref="DESIGN.md section 5, C13"),
+    "C15": dict(
+        text="Histories are cut into segments by Reset (2-3 per history on average); after every Reset a brand-new world with the same types, filter values and listener is created and driven in lock-step with the reset world. Both must equal the same model after every operation (components, values, targets, resources, plain and registered queries, events), creations must issue the same handles, and a finding is reported only where the fresh world passes and the reset world fails.",
+        note="Raw handles are compared only while implied: after a batch call over several source tables, row and recycling order depend on table iteration order, which the library does not guarantee across worlds with different table-creation histories (DESIGN 4.17).",
+        technique=SIM + "; differential reset world vs. brand-new world in lock-step",
+        ref="DESIGN.md section 5, C15"),
     "C16": dict(
         text="Generated interleavings of registrations of generated type shapes (relation embedded first / later / absent, structs, arrays, zero-sized, non-struct) with entity operations biased to the newest and highest IDs, re-registration, registration under lock, filling the registry to the limit plus one, and the resource registry likewise; after every operation the registry observables are checked for density, stability and consistency and every tracked entity is read through every registered ID. Both mask-width builds in both tiers.",
         note="Type shapes come from a finite family built with reflect; a named (non-embedded) first field of type ecs.Relation is not generated (ambiguous in the docs, DESIGN 4.11).",
